@@ -115,8 +115,8 @@ def run_case(case):
                               "metadata": [["x-test-md", f"v{uid[0]}"]]})
     script = {"root_pkg": apigen.lib_root(api.info, api.options), "calls": calls}
     ev, rc, err = pipeline.run_runner("checks.c07", script, lib, timeout=400)
-    if ev is None or "runner_crash" in ev:
-        return {"verdict": "inconclusive", "why": f"runner rc={rc} {err[-600:]} {str(ev)[:1500]}"}
+    if ev is None or "runner_crash" in ev or "library_import_error" in ev:
+        return pipeline.runner_failed_result(ev, rc, err, api)
     viol, counters, sigs = [], {}, set()
 
     def bump(k, n=1):
